@@ -30,16 +30,17 @@ func envOr(k, d string) string {
 
 // Violation is one concrete failing case.
 type Violation struct {
-	Property string `json:"property"`
-	Tier     string `json:"tier"`
-	Seed     int64  `json:"seed"`
-	Space    string `json:"space"`
-	Index    uint64 `json:"index"`
-	Class    string `json:"class"`  // stable classification, used for known-finding matching
-	Input    string `json:"input"`  // the concrete input / history, human readable
-	Detail   string `json:"detail"` // expected vs observed
-	GoTest   string `json:"go_test,omitempty"`
-	Confirm  string `json:"confirmed,omitempty"`
+	Property string  `json:"property"`
+	Tier     string  `json:"tier"`
+	Seed     int64   `json:"seed"`
+	Space    string  `json:"space"`
+	Index    uint64  `json:"index"`
+	From     *uint64 `json:"from,omitempty"` // when set: the cases From..Index run in ONE process (the failure needs the earlier ones)
+	Class    string  `json:"class"`          // stable classification, used for known-finding matching
+	Input    string  `json:"input"`          // the concrete input / history, human readable
+	Detail   string  `json:"detail"`         // expected vs observed
+	GoTest   string  `json:"go_test,omitempty"`
+	Confirm  string  `json:"confirmed,omitempty"`
 }
 
 // Space is one finite enumeration; case i is regenerated from its index.
